@@ -1,4 +1,5 @@
 import PewProofs.Effects
+import PewProofs.EffectsHistory
 
 /-! # C19 — property theorems: soundness of the may-write / may-alias analysis
 
@@ -80,6 +81,53 @@ theorem mayAlias_sound (np : Nat) (s : Stmt) (σ σ' : St) (d : Bool)
     apply hany o.1 hr
     exact reach_closed hnt W.2.2 hc hreach hpc
 
+/-! ## call histories on one object (constructor-retained containers)
+
+The per-class obligation of the check: for a class `C` with producer `c` (its constructor or a classmethod
+constructor, inlined, binding the receiver variable) and the inlined bodies `ms` of its public methods (documented
+mutators included), `ana` run on `history c ms` must report NO parameter of the history as possibly written — the
+parameters being the arguments the caller passed to the constructor and to the later method calls.  The theorems say
+what that computation means. -/
+
+/-- **All histories.**  A parameter of the history (an argument of the constructor or of any later method call) that the
+analysis of `history c ms` does not report is not written by ANY call history on the object: the constructor raising, or
+returning and being followed by any number of calls of the methods `ms` in any order, all of which return or the last
+of which raises at an arbitrary point.  In particular a container the constructor KEPT (the receiver holds a reference
+to the parameter's region) is never written through the object later: a write to the aliased object would be a write to
+the parameter's object, which is reported. -/
+theorem history_write_sound (np : Nat) (c : Stmt) (ms : List Stmt) (σ σ' : St) (d : Bool)
+    (h : Hist np c ms σ d σ') (h0 : Start σ)
+    (p : Nat) (hp : p < np) (hnot : p ∉ (ana np (history c ms) A.empty).report np) :
+    ∀ o ∈ σ'.written, o.1 ≠ p :=
+  mayWrite_sound np (history c ms) σ σ' d (hist_exec h) h0 p hp hnot
+
+/-- **Two-call histories** `construct; method` (what localises a broken history obligation to one method): the method
+runs in the state the constructor left. -/
+theorem twoCall_write_sound (np : Nat) (c m : Stmt) (σ σ₁ σ₂ : St) (d : Bool)
+    (hc : Exec np c σ true σ₁) (hm : Exec np m σ₁ d σ₂) (h0 : Start σ)
+    (p : Nat) (hp : p < np) (hnot : p ∉ (ana np (.seq c m) A.empty).report np) :
+    ∀ o ∈ σ₂.written, o.1 ≠ p :=
+  mayWrite_sound np (.seq c m) σ σ₂ d (.seq _ _ _ _ _ _ hc hm) h0 p hp hnot
+
+/-- **Retention = may-alias at return.**  When the analysis of `retProg c x t` does not report parameter `p`, then after
+ANY completed run of the constructor `c` nothing reachable from the object of the receiver variable `x` (the object
+itself, what its fields hold, what those hold …) is (in the region of) `p`: the object retains nothing of that
+argument.  The parameters the analysis does report are the "constructor-retained parameters" listed in the evidence. -/
+theorem retention_sound (np : Nat) (c : Stmt) (x t : Var) (σ σ₁ : St) (o : Obj)
+    (hc : Exec np c σ true σ₁) (hx : σ₁.env x = some o) (h0 : Start σ)
+    (p : Nat) (hp : p < np) (hnot : p ∉ (ana np (retProg c x t) A.empty).reportRet np) :
+    ∀ o', Reach σ₁.heap o o' → o'.1 ≠ p := by
+  intro o' hr
+  have hb : Exec np (.bind t (.reach [x])) σ₁ true { σ₁ with env := upd σ₁.env t o' } :=
+    .bindReach t [x] x o o' σ₁ (by simp) hx hr
+  have hret : Exec np (.ret t) { σ₁ with env := upd σ₁.env t o' } true
+      { { σ₁ with env := upd σ₁.env t o' } with returned := o' :: σ₁.returned } :=
+    .ret t o' _ (by simp [upd])
+  have hall : Exec np (retProg c x t) σ true
+      { { σ₁ with env := upd σ₁.env t o' } with returned := o' :: σ₁.returned } :=
+    .seq _ _ _ _ _ _ hc (.seq _ _ _ _ _ _ hb hret)
+  exact (mayAlias_sound np _ σ _ true hall h0 p hp hnot o' (by simp)).1
+
 abbrev σ₀ : St := ⟨fun _ => none, 0, [], [], [], []⟩
 
 example : Start σ₀ := ⟨rfl, rfl, rfl, rfl, fun _ => rfl⟩
@@ -133,5 +181,34 @@ example : (ana 1 (.seq (.bind 0 (.param 0)) (.seq (.bind 1 (.fresh 0)) (.seq (.w
 parameter, and a result that does not hold it does not alias it -/
 example : (ana 1 (.seq (.bind 0 (.param 0)) (.seq (.bind 1 (.fresh 0)) (.seq (.store 1 0 0) (.seq (.write 1)
     (.seq (.bind 2 (.fresh 1)) (.seq (.bind 3 (.reach [2])) (.ret 3))))))) A.empty).report 1 = [] := by decide
+
+/-! the seeded shape: `self.data = data` (the caller's list kept) followed by a mutator doing `self.data[i] = new`;
+parameter 0 = the constructor's `data`, variable 1 = the receiver, label 2 = the field -/
+def keepCtor : Stmt := .seq (.bind 0 (.param 0)) (.seq (.bind 1 (.fresh 0)) (.store 1 2 0))
+def copyCtor : Stmt :=
+  .seq (.bind 0 (.param 0)) (.seq (.bind 1 (.fresh 0)) (.seq (.bind 2 (.fresh 1)) (.seq (.store 2 0 0) (.store 1 2 2))))
+def slotMutator : Stmt := .seq (.bind 3 (.load [1] 2 2)) (.seq (.bind 4 (.fresh 3)) (.seq (.write 3) (.store 3 0 4)))
+def rebindMutator : Stmt := .seq (.bind 4 (.fresh 3)) (.seq (.write 1) (.store 1 2 4))
+
+/-- keeping the list and writing its slots later is reported; copying it (`list(data)`) or replacing the field by a new
+object (what `Laser.add` does although `Laser(arr).data is arr`) is not -/
+example : (ana 1 (history keepCtor [slotMutator]) A.empty).report 1 = [0]
+    ∧ (ana 1 (history copyCtor [slotMutator]) A.empty).report 1 = []
+    ∧ (ana 1 (history keepCtor [rebindMutator]) A.empty).report 1 = []
+    ∧ (ana 1 (retProg keepCtor 1 9) A.empty).reportRet 1 = [0] := by decide
+
+/-- the hypotheses of `history_write_sound` are met by a real history that does write the caller's list -/
+example : ∃ σ', Hist 1 keepCtor [slotMutator] σ₀ true σ' ∧ (0, 0) ∈ σ'.written := by
+  refine ⟨⟨upd (upd (upd (upd (fun _ => none) 0 (0, 0)) 1 (1, 0)) 3 (0, 0)) 4 (4, 1), 2, [(4, 1), (1, 0)],
+    [((0, 0), 0, (4, 1)), ((1, 0), 2, (0, 0))], [(0, 0)], []⟩, ?_, by simp⟩
+  refine .calls _ ⟨upd (upd (fun _ => none) 0 (0, 0)) 1 (1, 0), 1, [(1, 0)], [((1, 0), 2, (0, 0))], [], []⟩ _ _ ?_ ?_
+  · refine .seq _ _ _ _ _ _ (.bindParam 0 0 _ (by decide)) ?_
+    refine .seq _ _ _ _ _ _ (.bindFresh 1 0 _) ?_
+    exact .store 1 2 0 (1, 0) (0, 0) _ (by simp [upd]) (by simp [upd])
+  · refine .call slotMutator _ _ _ _ (by simp) ?_ (.done _)
+    refine .seq _ _ _ _ _ _ (.bindLoadEdge 3 [1] 2 2 1 (1, 0) 2 (0, 0) _ (by simp) (by simp [upd]) (by simp) (by decide)) ?_
+    refine .seq _ _ _ _ _ _ (.bindFresh 4 3 _) ?_
+    refine .seq _ _ _ _ _ _ (.write 3 (0, 0) _ (by simp [upd])) ?_
+    exact .store 3 0 4 (0, 0) (4, 1) _ (by simp [upd]) (by simp [upd])
 
 end Pew.Effects
